@@ -184,6 +184,10 @@ func featuresSx(it sItem) Sx {
 func itemSx(it sItem) Sx {
 	switch it.T {
 	case "header":
+		if it.Open == "other" {
+			// the opening element of the other transport does not open a stream of this one: an unexpected element
+			return L(Z(16))
+		}
 		return L(Z(0), SBytes(it.ID))
 	case "features":
 		return L(Z(1), featuresSx(it))
@@ -200,11 +204,19 @@ func itemSx(it sItem) Sx {
 			// an element called iq in a namespace that is not the stream's: not an IQ stanza, whatever it contains
 			return L(Z(16))
 		}
+		if it.KeepID {
+			// an <iq/> that does not carry the id of the pending request does not answer it: an unexpected element
+			return L(Z(16))
+		}
 		typ := map[string]int{"get": 0, "set": 1, "result": 2, "error": 3}[it.Typ]
 		var pl Sx
 		switch it.Pl {
 		case "bind":
-			pl = L(Z(0), SBytes(it.Jid))
+			if it.Jid == "" {
+				pl = L(Z(2)) // an empty <bind/>: a payload, but not the result of resource binding (that carries the bound JID)
+			} else {
+				pl = L(Z(0), SBytes(it.Jid))
+			}
 		case "session":
 			pl = L(Z(1))
 		case "other":
